@@ -479,4 +479,92 @@ theorem presorted_sorted (key : β → Option Nat) (asc naLast : Bool) (sortp : 
     rw [hv, hw]
     cases asc <;> simp_all [keyLe] <;> omega
 
+/-! ### several sort columns -/
+
+/-- **globally ordered, several sort columns**: the rows are routed by the FIRST sort column only (`key`), every
+    partition is then sorted by the full order `le` (all columns, one direction per column, NaN placement — whatever
+    pandas does on one partition). If `le` is total and refines the order of the first column, the concatenation of
+    the outputs is sorted by `le`. -/
+theorem sortValuesWith_sorted_refined (sh : List (List (Nat × β)) → Nat → List (List (Nat × β)))
+    (sortp : List β → List β) (key : β → Option Nat) (le : β → β → Bool) (divs : List Nat) (asc naLast : Bool)
+    (parts : List (List β)) (h2 : 2 ≤ divs.length)
+    (hrefines : ∀ a b, le a b = true → keyLe asc naLast (key a) (key b) = true)
+    (htotal : ∀ a b, (le a b || le b a) = true)
+    (hsound : ∀ p out, (sh (parts.map (assignPartitions key divs asc naLast)) (divs.length - 1))[p]? = some out →
+      ∀ r ∈ out, r ∈ (parts.map (assignPartitions key divs asc naLast)).flatten ∧ r.1 = p)
+    (hsorted : ∀ l, (sortp l).Pairwise fun a b => le a b = true)
+    (hmem : ∀ l r, r ∈ sortp l → r ∈ l) :
+    (sortValuesWith sh sortp key divs asc naLast parts).flatten.Pairwise fun a b => le a b = true := by
+  unfold sortValuesWith
+  rw [List.pairwise_flatten]
+  constructor
+  · intro l hl
+    obtain ⟨o, _, rfl⟩ := List.mem_map.mp hl
+    exact hsorted _
+  · rw [List.pairwise_map, List.pairwise_iff_getElem]
+    intro i j hi hj hij x hx y hy
+    have hpart : ∀ (t : Nat) (ht : t < _) (z : β),
+        z ∈ sortp (((sh (parts.map (assignPartitions key divs asc naLast)) (divs.length - 1))[t]'ht).map (·.2)) →
+        setPartitionsPre divs (key z) asc naLast = t := by
+      intro t ht z hz
+      obtain ⟨r, hr, rfl⟩ := List.mem_map.mp (hmem _ _ hz)
+      obtain ⟨hin, ht'⟩ := hsound t _ (List.getElem?_eq_getElem ht) r hr
+      rw [← (mem_assigned key divs asc naLast parts r hin).1, ht']
+    have hxi := hpart i hi x hx
+    have hyj := hpart j hj y hy
+    cases hle : le x y with
+    | true => rfl
+    | false =>
+      have ht := htotal x y
+      rw [hle, Bool.false_or] at ht
+      have := spp_mono divs asc naLast (key y) (key x) h2 (hrefines y x ht)
+      omega
+
+/-- lexicographic order on two columns (first column: `keyLe asc₁ naLast`; second: `keyLe asc₂ naLast`) -/
+def lexLe (k1 k2 : β → Option Nat) (asc₁ asc₂ naLast : Bool) (a b : β) : Bool :=
+  if k1 a = k1 b then keyLe asc₂ naLast (k2 a) (k2 b) else keyLe asc₁ naLast (k1 a) (k1 b)
+
+theorem lexLe_refines (k1 k2 : β → Option Nat) (asc₁ asc₂ naLast : Bool) (a b : β)
+    (h : lexLe k1 k2 asc₁ asc₂ naLast a b = true) : keyLe asc₁ naLast (k1 a) (k1 b) = true := by
+  unfold lexLe at h
+  split at h
+  · rename_i he
+    rw [he]
+    have := keyLe_total asc₁ naLast (k1 b) (k1 b)
+    simpa using this
+  · exact h
+
+theorem lexLe_total (k1 k2 : β → Option Nat) (asc₁ asc₂ naLast : Bool) (a b : β) :
+    (lexLe k1 k2 asc₁ asc₂ naLast a b || lexLe k1 k2 asc₁ asc₂ naLast b a) = true := by
+  unfold lexLe
+  by_cases he : k1 a = k1 b
+  · rw [if_pos he, if_pos he.symm]; exact keyLe_total asc₂ naLast _ _
+  · rw [if_neg he, if_neg (fun h => he h.symm)]; exact keyLe_total asc₁ naLast _ _
+
+theorem lexLe_trans (k1 k2 : β → Option Nat) (asc₁ asc₂ naLast : Bool) (a b c : β)
+    (h1 : lexLe k1 k2 asc₁ asc₂ naLast a b = true) (h2 : lexLe k1 k2 asc₁ asc₂ naLast b c = true) :
+    lexLe k1 k2 asc₁ asc₂ naLast a c = true := by
+  unfold lexLe at *
+  by_cases e1 : k1 a = k1 b <;> by_cases e2 : k1 b = k1 c
+  · rw [if_pos e1] at h1; rw [if_pos e2] at h2; rw [if_pos (e1.trans e2)]
+    exact keyLe_trans asc₂ naLast _ _ _ h1 h2
+  · rw [if_neg e2] at h2
+    have e3 : ¬ k1 a = k1 c := by rw [e1]; exact e2
+    rw [if_neg e3, e1]; exact h2
+  · rw [if_neg e1] at h1
+    have e3 : ¬ k1 a = k1 c := by rw [← e2]; exact e1
+    rw [if_neg e3, ← e2]; exact h1
+  · rw [if_neg e1] at h1; rw [if_neg e2] at h2
+    have h3 := keyLe_trans asc₁ naLast _ _ _ h1 h2
+    by_cases e3 : k1 a = k1 c
+    · exfalso
+      rw [← e3] at h2
+      exact e1 (keyLe_antisymm asc₁ naLast _ _ h1 h2)
+    · rw [if_neg e3]; exact h3
+
+/-- a per-partition sort by two columns that satisfies the hypotheses of `sortValuesWith_sorted_refined` -/
+theorem isort_lexLe_sorted (k1 k2 : β → Option Nat) (asc₁ asc₂ naLast : Bool) (l : List β) :
+    (isort (lexLe k1 k2 asc₁ asc₂ naLast) l).Pairwise fun a b => lexLe k1 k2 asc₁ asc₂ naLast a b = true :=
+  isort_pairwise _ (lexLe_trans k1 k2 asc₁ asc₂ naLast) (lexLe_total k1 k2 asc₁ asc₂ naLast) l
+
 end Dask.SortValues
